@@ -22,6 +22,7 @@ func TestCollections(t *testing.T) {
 	vk.R.Assume("Go toolchain output of the hand-expanded loops is the documented meaning")
 	sugarcheck.Run(t, vk.R, sugarcheck.Options{
 		Name:    "pair",
+		Oracle:  oracle,
 		Program: func(g *xsugar.G) *xsugar.Program { return xsugar.CollectionProgram(g, 12) },
 		// every item shape is a documented form (doc/docs.md) or a direct generalisation of one, and
 		// none is rejected on the pinned tree: a compile-time rejection is a regression of the sugar.
